@@ -319,6 +319,7 @@ class LQR(nn.Module):
 
         self.x_traj = x_init.unsqueeze(-2).repeat((1, self.T, 1))
 
+        self.system.reset()
         self.x_traj = runsys(self.system, self.T, self.x_traj, self.u_traj)
 
         K = torch.zeros(self.n_batch + (self.T, nc, ns), **self.dargs)
@@ -368,6 +369,7 @@ class LQR(nn.Module):
         x = torch.zeros(self.n_batch + (self.T+1, ns), **self.dargs)
         xt = x[..., 0, :] = x_init
 
+        self.system.reset()
         for t in range(self.T):
             Kt, kt = K[...,t,:,:], k[...,t,:]
             delta_xt = xt - self.x_traj[...,t,:]
